@@ -31,6 +31,7 @@ structure Received (H : Bytes → Bytes) (ver text : Bytes) (row : VGen.VersionR
   hparse : parse text = some p
   noHeader : hasUnderscoreKey p.toJVal = false
   noDup : p.toJVal.noDupKeys = true
+  noVariant : hasFieldVariant p.toJVal = false
   hcons : construct fmt ver false (encodeCanon (stripped fmt p.toJVal)) (stripped fmt p.toJVal) = .ok e0
 
 theorem parseUntrusted_ok {H : Bytes → Bytes} {ver text : Bytes} {e : PDU} (h : parseUntrusted H ver text = .ok e) :
@@ -55,8 +56,11 @@ theorem parseUntrusted_ok {H : Bytes → Bytes} {ver text : Bytes} {e : PDU} (h 
             · rename_i h3
               split at h
               · cases h
-              · rename_i e0 hc
-                exact ⟨row, fmt, p, e0, ⟨hrow, hfmt, hp, by simpa using h1, by simpa using h3, hc⟩, h⟩
+              · rename_i h4
+                split at h
+                · cases h
+                · rename_i e0 hc
+                  exact ⟨row, fmt, p, e0, ⟨hrow, hfmt, hp, by simpa using h1, by simpa using h3, by simpa using h4, hc⟩, h⟩
     · cases h
 
 /-- the decoded event `finishUntrusted` starts from -/
@@ -245,7 +249,7 @@ theorem parseUntrusted_cases {H : Bytes → Bytes} {ver text : Bytes} {e : PDU} 
         have hm := no_event_id_member hT hev hro
         rw [← hk] at hm
         simp only [decodeFields, hm, seqString, List.foldl_nil]
-      have := hidv (by rw [g2, hff]; exact hne) hraw
+      have := hidv (by rw [g2, hff]; exact hne)
       rw [g1] at this
       rw [hobj]; exact this
     refine ⟨hA, by rw [hfmt, g2, hff], Or.inr ⟨by rw [← f5]; exact hh, by rw [hred, g3], r0, by rw [← f5]; exact hr, ?_, Or.inr ?_⟩⟩
@@ -476,6 +480,198 @@ theorem same_redaction_same_identity_intact {H : Bytes → Bytes} {ver t1 t2 : B
     ∀ verify name kid pk, C05.sigValid verify ver (.obj e1.obj) name kid pk = C05.sigValid verify ver (.obj e2.obj) name kid pk :=
   tamper_redactable_same_identity h1 h2 hrow hfmt hv hp1 hp2 hs1 hs2 hr1 hr2
 
+/-! ## Refusal on receipt: texts that do not denote one event, members that are not the field they look like
+
+C04 "returned … with every field intact", C03 "identity is a function of the redacted content", C06, C17, C18: the
+library's JSON readers disagree on a text that repeats a member name (gjson / sjson: first occurrence; encoding/json:
+last), and the struct decoding reads a case variant of a field name as the field.  Since /repo 15162d8 and 37131f6 the
+untrusted constructors refuse both (`checkUntrustedEventJSON`). -/
+
+/-- **A text that repeats a member name in some object — at any depth — is refused**, in every room version, whatever
+    its content hash. -/
+theorem refuses_repeated_member (H : Bytes → Bytes) {ver text : Bytes} {p : PVal} (hp : parse text = some p)
+    (hd : p.toJVal.noDupKeys = false) : ∀ e, parseUntrusted H ver text ≠ .ok e := by
+  intro e h
+  have := parseUntrusted_nodup h hp
+  rw [hd] at this
+  cases this
+
+/-- **A text with a top-level member whose name is a case variant of an event-struct field name** (`Type`, `Room_id`,
+    `SENDER`, `ſtate_key`, … — equal under Unicode simple case folding, not equal) **is refused.** -/
+theorem refuses_field_variant (H : Bytes → Bytes) {ver text : Bytes} {p : PVal} (hp : parse text = some p)
+    (hv : hasFieldVariant p.toJVal = true) : ∀ e, parseUntrusted H ver text ≠ .ok e := by
+  intro e h
+  obtain ⟨_, _, p', _, R, _⟩ := parseUntrusted_ok h
+  have : p' = p := by have := R.hparse; rw [hp] at this; exact (Option.some.inj this).symm
+  subst this
+  have := R.noVariant
+  rw [hv] at this
+  cases this
+
+theorem deleteKeys_keys_nodup (ks : List Bytes) : ∀ (l : EventParse.Obj), (keysOf l).Nodup → (keysOf (deleteKeys ks l)).Nodup := by
+  induction ks with
+  | nil => intro l h; exact h
+  | cons k rest ih =>
+    intro l h
+    exact ih _ (deleteFirst_keys_nodup k l h)
+
+/-- the object an accepted event holds has no repeated key -/
+theorem accepted_keys_nodup {H : Bytes → Bytes} {ver text : Bytes} {e : PDU} (h : parseUntrusted H ver text = .ok e) :
+    (keysOf e.obj).Nodup := by
+  obtain ⟨row, fmt, p, kvs, hrow, hfmt, hp, hs, hA, hef, hcase⟩ := C04.parseUntrusted_cases h
+  have hnd := C04.parseUntrusted_nodup h hp
+  have hk : (keysOf kvs).Nodup := by
+    cases hpj : p.toJVal with
+    | obj kvs0 =>
+      rw [hpj] at hs hnd
+      simp only [stripped, JVal.obj.injEq] at hs
+      subst hs
+      exact deleteKeys_keys_nodup _ _ (keys_nodup_of_noDupKeys hnd)
+    | _ => rw [hpj] at hs; simp [stripped] at hs
+  rcases hcase with ⟨_, _, ho, _⟩ | ⟨_, _, r0, hr0, _, ho | hdrop⟩
+  · rw [ho]; exact hk
+  · rw [ho]; exact hk
+  · obtain ⟨a, kvs', rk, ha, hro, hrk⟩ := C04.redactJSON_obj hr0
+    subst hrk
+    obtain ⟨hT, _⟩ := C05.algoOf_ok ha
+    obtain ⟨hdist, _, _, _⟩ := tablesOk_parts hT
+    obtain ⟨tf, cf, _, hv⟩ := redactObj_ok hro
+    have hr : rk = outputOf a kvs' tf cf := by injection hv
+    have hrn : (keysOf rk).Nodup := by rw [hr]; exact output_keys_nodup hdist kvs' tf cf
+    unfold dropEventID at hdrop
+    split at hdrop
+    · have : e.obj = rk := by injection hdrop with h1; exact h1.symm
+      rw [this]; exact hrn
+    · simp only [JVal.obj.injEq] at hdrop
+      rw [← hdrop]
+      exact deleteFirst_keys_nodup _ _ hrn
+
+
+/-- no name of a redaction keep struct is a case variant of an event-struct field name (regenerated tables) -/
+theorem keep_names_no_variant : ∀ row ∈ VGen.roomVersions,
+    (match algoByName row.redactionAlgorithm with
+     | some a => a.fields.all (fun f => !(structFieldNames.any (fun n => f.name != n && foldBytes f.name == foldBytes n)))
+     | none => false) = true := by
+  decide
+
+theorem deleteKeys_sub (ks : List Bytes) : ∀ (l : EventParse.Obj), ∀ kv ∈ deleteKeys ks l, kv ∈ l := by
+  unfold deleteKeys
+  induction ks with
+  | nil => intro l kv h; exact h
+  | cons k ks ih =>
+    intro l kv h
+    simp only [List.foldl_cons] at h
+    exact deleteFirst_sub k l kv (ih _ kv h)
+
+theorem any_sublist {α : Type} (q : α → Bool) {l l' : List α} (hs : ∀ x ∈ l', x ∈ l) (h : l.any q = false) : l'.any q = false := by
+  rw [List.any_eq_false] at h ⊢
+  intro x hx
+  exact h x (hs x hx)
+
+/-- **The object an accepted event holds has no case variant of a struct field name either**: it is the stripped input,
+    or the redaction of it (whose keys are names of the keep struct). -/
+theorem accepted_no_variant {H : Bytes → Bytes} {ver text : Bytes} {e : PDU} (h : parseUntrusted H ver text = .ok e) :
+    hasFieldVariant (.obj e.obj) = false := by
+  obtain ⟨row, fmt, p, kvs, hrow, hfmt, hp, hs, hA, hef, hcase⟩ := parseUntrusted_cases h
+  obtain ⟨_, _, p', _, R, _⟩ := parseUntrusted_ok h
+  have hpp : p' = p := by have := R.hparse; rw [hp] at this; exact (Option.some.inj this).symm
+  subst hpp
+  have hk : hasFieldVariant (.obj kvs) = false := by
+    cases hpj : p'.toJVal with
+    | obj kvs0 =>
+      have hv0 := R.noVariant
+      rw [hpj] at hs hv0
+      simp only [stripped, JVal.obj.injEq] at hs
+      subst hs
+      exact any_sublist _ (deleteKeys_sub _ _) hv0
+    | _ => rw [hpj] at hs; simp [stripped] at hs
+  rcases hcase with ⟨_, _, ho, _⟩ | ⟨_, _, r0, hr0, _, ho | hdrop⟩
+  · rw [ho]; exact hk
+  · rw [ho]; exact hk
+  · obtain ⟨a, kvs', rk, ha, hro, hrk⟩ := redactJSON_obj hr0
+    subst hrk
+    obtain ⟨tf, cf, _, hv⟩ := redactObj_ok hro
+    have hr : rk = outputOf a kvs' tf cf := by injection hv
+    -- the keys of the redaction are names of the keep struct
+    have hkeep : ∀ kv ∈ rk, ∃ f ∈ a.fields, kv.1 = f.name := by
+      intro kv hkv; rw [hr] at hkv; exact output_keys hkv
+    have htab : a.fields.all (fun f => !(structFieldNames.any (fun n => f.name != n && foldBytes f.name == foldBytes n))) = true := by
+      have := keep_names_no_variant row (List.mem_of_find?_eq_some hrow)
+      have ha' : algoByName row.redactionAlgorithm = some a := by simpa [algoOf, hrow] using ha
+      rw [ha'] at this
+      exact this
+    have hrkv : hasFieldVariant (.obj rk) = false := by
+      simp only [hasFieldVariant, List.any_eq_false]
+      intro kv hkv
+      obtain ⟨f, hf, hkf⟩ := hkeep kv hkv
+      have := List.all_eq_true.mp htab f hf
+      rw [hkf]
+      simpa using this
+    unfold dropEventID at hdrop
+    split at hdrop
+    · have : e.obj = rk := by injection hdrop with h1; exact h1.symm
+      rw [this]; exact hrkv
+    · simp only [JVal.obj.injEq] at hdrop
+      rw [← hdrop]
+      exact any_sublist _ (deleteFirst_sub _ _) hrkv
+
+/-- On an object without repeated keys in which no key is a case variant of `n`, the members the struct decoding reads
+    into the field named `n` are exactly the member with that name. -/
+theorem members_exact {n : Bytes} : ∀ {kvs : EventParse.Obj}, (keysOf kvs).Nodup →
+    (∀ kv ∈ kvs, kv.1 ≠ n → foldBytes kv.1 ≠ foldBytes n) → members kvs n = (lookupExact kvs n).toList
+  | [], _, _ => rfl
+  | x :: rest, hnd, hnv => by
+    have hn := List.nodup_cons.mp (show (x.1 :: keysOf rest).Nodup from hnd)
+    have ih := members_exact (n := n) hn.2 (fun kv hkv => hnv kv (List.mem_cons_of_mem _ hkv))
+    rw [lookupExact_eq, lastSome_cons, ← lookupExact_eq]
+    by_cases hx : x.1 = n
+    · have hm : matchesField x.1 n = true := by rw [hx]; exact matchesField_self n
+      have hrest : ∀ kv ∈ rest, matchesField kv.1 n = false := by
+        intro kv hkv
+        have hne : kv.1 ≠ n := by
+          intro he; apply hn.1; rw [hx, ← he]; exact List.mem_map.mpr ⟨kv, hkv, rfl⟩
+        have hf := hnv kv (List.mem_cons_of_mem _ hkv) hne
+        simp only [matchesField, Bool.or_eq_false_iff, beq_eq_false_iff_ne, ne_eq]
+        exact ⟨hne, hf⟩
+      have hmr : members rest n = [] := by
+        unfold members; rw [filter_eq_nil_of _ _ hrest]; rfl
+      have hlr : lookupExact rest n = none := by
+        cases hl : lookupExact rest n with
+        | none => rfl
+        | some v => rw [hl, hmr] at ih; cases ih
+      have hmm : members (x :: rest) n = x.2 :: members rest n := by
+        unfold members; simp only [List.filter_cons, hm, if_true, List.map_cons]
+      rw [hmm, hmr, hlr]
+      simp [hx]
+    · have hf := hnv x List.mem_cons_self hx
+      have hm : matchesField x.1 n = false := by
+        simp only [matchesField, Bool.or_eq_false_iff, beq_eq_false_iff_ne, ne_eq]
+        exact ⟨hx, hf⟩
+      have hmm : members (x :: rest) n = members rest n := by
+        unfold members; simp only [List.filter_cons, hm, Bool.false_eq_true, if_false]
+      rw [hmm, ih]
+      have hb : (x.1 == n) = false := by simpa using hx
+      cases lookupExact rest n <;> simp [hb]
+
+/-- **Every accessor reports the exact member of `JSON()`.**  For an event `NewEventFromUntrustedJSON` returned and
+    every field name `n` of the event structs, the members of `e.obj` (the value `JSON()` denotes) that the struct
+    decoding reads into the field are: the member named exactly `n`, if there is one, and nothing else.  With
+    `accessors_only_see_json` (every field is decoded from `e.obj`): `Type()`, `SenderID()`, `RoomID()`, `StateKey()`,
+    `Content()`, `Depth()`, … are functions of the members `type`, `sender`, `room_id`, … of the event's JSON — the JSON
+    that is hashed, signed, redacted and stored — and of nothing else; the length limits of `CheckFields` are checked on
+    those members. -/
+theorem accessors_read_exact_members {H : Bytes → Bytes} {ver text : Bytes} {e : PDU} (h : parseUntrusted H ver text = .ok e) :
+    ∀ n ∈ structFieldNames, members e.obj n = (lookupExact e.obj n).toList := by
+  intro n hn
+  have hnv := accepted_no_variant h
+  simp only [hasFieldVariant, List.any_eq_false] at hnv
+  apply members_exact (accepted_keys_nodup h)
+  intro kv hkv hne hfold
+  have := hnv kv hkv
+  apply this
+  rw [List.any_eq_true]
+  exact ⟨n, hn, by simp [hne, hfold]⟩
+
 /-! ## Non-vacuity: concrete received events (room version 10, toy hash `H0 _ = []`) -/
 
 def exText (h : String) : Bytes :=
@@ -495,15 +691,15 @@ example : (match parseUntrusted H0 b!"10" (exText "QUJD") with
   | .ok e => e.redacted && e.f.type == b!"m.x" && (e.f.content.map encodeCanon == some b!"{}")
   | _ => false) = true := by decide +kernel
 
-/-! ## `tamper_redactable_same_identity`: instances with a case variant of `event_id`
+/-! ## `tamper_redactable_same_identity`: instances
 
 Toy hash `H1 b = [length of b mod 256]` (enough to tell the reference bytes apart).  Room version 10. -/
 
 def H1 : Bytes → Bytes := fun b => [UInt8.ofNat b.length]
 
-/-- an event with an optional case variant `Event_id`, a content body and a declared hash -/
-def exEv (variant : Bool) (body h : String) : Bytes :=
-  ("{" ++ (if variant then "\"Event_id\":\"$x\"," else "") ++ "\"auth_events\":[],\"content\":{\"body\":\"" ++ body ++
+/-- an event with an optional extra member, a content body and a declared hash -/
+def exEv (extra : String) (body h : String) : Bytes :=
+  ("{" ++ extra ++ "\"auth_events\":[],\"content\":{\"body\":\"" ++ body ++
    "\"},\"depth\":1,\"hashes\":{\"sha256\":\"" ++ h ++
    "\"},\"origin_server_ts\":1,\"prev_events\":[],\"room_id\":\"!r:h\",\"sender\":\"@a:h\",\"type\":\"m.x\"}"
   ).toList.flatMap (fun c => utf8Encode c.toNat)
@@ -517,30 +713,42 @@ def exRedaction (t : Bytes) : Option Bytes :=
     | _ => none
   | none => none
 
-/-- A genuine event (hash matches, no variant) and a copy to which `Event_id` was added.  The copy fails the
-    hash check and is redacted; the variant is dropped by the redaction like any unlisted key, the two redactions
-    are equal — and both get the same event ID, as the theorem says. -/
-example : (match parseUntrusted H1 b!"10" (exEv false "x" "hw"), parseUntrusted H1 b!"10" (exEv true "x" "hw") with
+/-- A genuine event (hash matches) and a copy to which a member outside every keep-list was added (`Origin_`, not a
+    case variant of any struct field).  The copy fails the hash check and is redacted; the extra member is dropped by
+    the redaction, the two redactions are equal — and both get the same event ID, as the theorem says. -/
+example : (match parseUntrusted H1 b!"10" (exEv "" "x" "hw"), parseUntrusted H1 b!"10" (exEv "\"Origin_\":\"$x\"," "x" "hw") with
   | .ok e, .ok t => !e.redacted && t.redacted && e.f.eventIDRaw == t.f.eventIDRaw && !e.f.eventIDRaw.isEmpty
   | _, _ => false) = true := by decide +kernel
 
-example : (match exRedaction (exEv false "x" "hw"), exRedaction (exEv true "x" "hw") with
+example : (match exRedaction (exEv "" "x" "hw"), exRedaction (exEv "\"Origin_\":\"$x\"," "x" "hw") with
   | some r1, some r2 => r1 == r2
   | _, _ => false) = true := by decide +kernel
 
-/-- **The pair that was the counter-example before the repair** (`corpus/C04/event.ops`).  An event whose SENDER
-    put a case variant `Event_id` into it and hashed it (the hash matches: it is returned not redacted), and a copy
-    of it with only redactable content altered (hash mismatch, returned redacted).  They have the same redaction
-    and — now — the SAME event ID: the redaction drops `Event_id` instead of re-emitting it as `event_id`, so the
-    intact event's reference hash no longer covers a member that the re-parsed redacted copy lacks.  On the unrepaired
-    code (room version 10, real SHA-256) the two IDs were `$si3leqN6sEe5uZjub5Omi8dQwFNHlF8rnB0tETZ34wI` and
-    `$3zoncHWlgVBMjowEQsafT_q1-qgCFhrIfJOdLmHvsJ4`. -/
-example : (match parseUntrusted H1 b!"10" (exEv true "x" "lw"), parseUntrusted H1 b!"10" (exEv true "yy" "lw") with
+/-- A genuine event and a copy with only redactable content altered (hash mismatch, returned redacted): the same
+    redaction and the same event ID. -/
+example : (match parseUntrusted H1 b!"10" (exEv "" "x" "hw"), parseUntrusted H1 b!"10" (exEv "" "yy" "hw") with
   | .ok a, .ok b => !a.redacted && b.redacted && a.f.eventIDRaw == b.f.eventIDRaw && !a.f.eventIDRaw.isEmpty
   | _, _ => false) = true := by decide +kernel
 
-example : (match exRedaction (exEv true "x" "lw"), exRedaction (exEv true "yy" "lw") with
+example : (match exRedaction (exEv "" "x" "hw"), exRedaction (exEv "" "yy" "hw") with
   | some r1, some r2 => r1 == r2
   | _, _ => false) = true := by decide +kernel
+
+/-! ## Texts that are refused (`checkUntrustedEventJSON`): the witnesses of `corpus/C04/event.ops`
+
+The pair that was the counter-example of `tamper_redactable_same_identity` before the redaction repair — an event
+whose SENDER put a case variant `Event_id` into it and hashed it — is no longer received at all; neither is an event
+with a second `hashes` member (the content-forgery shape), nor one with a case variant of `type` or `room_id`. -/
+
+def refused (r : Except Err PDU) : Bool :=
+  match r with
+  | .error .badJSON => true
+  | _ => false
+
+example : refused (parseUntrusted H1 b!"10" (exEv "\"Event_id\":\"$x\"," "x" "lw")) = true := by decide +kernel
+example : refused (parseUntrusted H1 b!"10" (exEv "\"hashes\":{\"sha256\":\"lw\"}," "x" "hw")) = true := by decide +kernel
+example : refused (parseUntrusted H1 b!"10" (exEv "\"Type\":\"m.room.power_levels\"," "x" "hw")) = true := by decide +kernel
+example : refused (parseUntrusted H1 b!"10" (exEv "\"Room_id\":\"!q:h\"," "x" "hw")) = true := by decide +kernel
+example : refused (parseUntrusted H1 b!"10" (exEv "\"unsigned\":{},\"unsigned\":{\"a\":{\"k\":1,\"k\":2}}," "x" "hw")) = true := by decide +kernel
 
 end V.C04
